@@ -31,10 +31,11 @@ PROGRAMS = {
                    "text": "_t5 = 2\n_t4 = 1\nw = 0\nwhile true:\n    _t5, _t4 = _t4, _t5\n    w = w + _t5\nend\n"},
 }
 PROGRAMS.update({
+    # the same variable name with different finite value sets, updated from its old value
     "finA": {"goals": ["x**3", "x**2*y", "y"],
-             "text": "x = 0\ny = 0\nwhile true:\n    y = y + x**2\n    x = 0 {1/3} 1 {1/3} 2\nend\n"},
+             "text": "x = DiscreteUniform(0, 2)\ny = 0\nwhile true:\n    x = x {1/3} 2 - x\n    y = y + x\nend\n"},
     "finB": {"goals": ["x**3", "x**2*y", "y"],
-             "text": "x = 0\ny = 0\nwhile true:\n    y = y + x**2\n    x = 0 {1/2} 2 {1/4} 4\nend\n"},
+             "text": "x = 0 {1/3} 2 {1/3} 4\ny = 0\nwhile true:\n    x = x {1/3} 4 - x\n    y = y + x\nend\n"},
     "trig": {"goals": ["y", "z"],
              "text": "x = 0\ny = 0\nz = 2\nwhile true:\n    x = DiscreteUniform(1, 2)\n    z = z + y\n    y = Cos(x)\nend\n"},
 })
